@@ -136,6 +136,52 @@ theorem truncate_leaves_old_entry_behind_young :
     let l := crun 5 [] [.push exE 30, .push exE 10]
     truncLoop 25 l = l ∧ l.filter (fun x => !decide (x.2 < 25)) = [(exE, 30)] := by decide
 
+/-! ## a reorganisation deeper than the reorg-cache period -/
+
+theorem foldl_addToTxpool_txpool (c : Ctx) (l : List Entry) (acc : TxPool) :
+    ∀ x ∈ (l.foldl (fun acc e => (acc.addToTxpool c e).1) acc).txpool, x ∈ acc.txpool ∨ x ∈ l := by
+  induction l generalizing acc with
+  | nil => intro x hx; exact Or.inl hx
+  | cons e rest ih =>
+    intro x hx
+    simp only [List.foldl_cons] at hx
+    rcases ih _ x hx with h | h
+    · rcases (addToTxpool_members c acc e).1 x h with h' | h'
+      · exact Or.inl h'
+      · exact Or.inr (by simp [h'])
+    · exact Or.inr (List.mem_cons_of_mem _ h)
+
+/-- **What comes back after a reorganisation.**  `block_accepted` truncates the reorg cache at
+`now - reorg_cache_period` and then replays it: with a time-ordered cache every transaction the replay
+puts (back) into the txpool was admitted NOT EARLIER than the cutoff.  A transaction that was confirmed
+only on the abandoned branch and admitted before the cutoff is in neither the txpool nor the cache
+afterwards: it is not replayed (it has to be submitted again).  Joint validity, fees, standalone validity
+and the cache bound are NOT affected (`timed_pool_inv`, `timed_fees_always_paid`,
+`timed_entries_always_valid`, `timed_reorg_cache_bounded` hold for every truncation): what a deep
+reorganisation costs is completeness of the replay, not validity of the pool. -/
+theorem deep_reorg_replays_only_recent (c : Ctx) (s : TxPool) (tc : TCache) (h : s.cache = tc.map (·.1))
+    (hs : TimeSorted tc) (now : Int) (periodMin : Nat) :
+    ∀ x ∈ ((s.blockTruncate (tc.map (·.2)) now periodMin).reconcileReorgCache c).txpool,
+      x ∈ s.txpool ∨ ∃ a, (x, a) ∈ tc ∧ reorgCutoff now periodMin ≤ a := by
+  intro x hx
+  unfold TxPool.reconcileReorgCache at hx
+  rcases foldl_addToTxpool_txpool c _ _ x hx with h1 | h1
+  · exact Or.inl h1
+  · right
+    have hc : (s.blockTruncate (tc.map (·.2)) now periodMin).cache =
+        (truncLoop (reorgCutoff now periodMin) tc).map (·.1) :=
+      truncate_at_is_the_loop s tc h _
+    rw [hc, truncLoop_sorted _ _ hs] at h1
+    obtain ⟨y, hy, rfl⟩ := List.mem_map.mp h1
+    have := List.mem_filter.mp hy
+    refine ⟨y.2, this.1, ?_⟩
+    have h2 := this.2
+    simp only [Bool.not_eq_eq_eq_not, Bool.not_true, decide_eq_false_iff_not, Int.not_lt] at h2
+    exact h2
+
+/-- non-vacuity: a cache of two entries, the older one before the cutoff -/
+example : TimeSorted [(exE, 10), (exE, 2000000)] := by unfold TimeSorted; decide
+
 /-! ## the Dandelion epoch -/
 
 theorem fresh_epoch_is_expired (d : DCfg) (now : Int) : TEpoch.new.isExpired d now = true := rfl
